@@ -134,11 +134,11 @@ Definition apply_op (o : op) (b : bl) : N * bool * bl :=
   | OpSetBatch ks =>
       if is_nil ks then (0, false, b)
       else let '(n, b') := batch set_locked ks b 0 in
-           if n =? 0 then (0, false, b) else (n, true, b')
+           if n =? 0 then (0, false, b') else (n, true, b')
   | OpRemoveBatch ks =>
       if is_nil ks then (0, false, b)
       else let '(n, b') := batch remove_locked ks b 0 in
-           if n =? 0 then (0, false, b) else (n, true, b')
+           if n =? 0 then (0, false, b') else (n, true, b')
   end.
 
 (* ---- snapshots and the file *)
